@@ -19,9 +19,9 @@ CLAIMED = {
     "C03": ("edge-dominance of value-carrying commits by the admission predicate; must-held guard analysis",
             "Admission-gate shape at the 20 commit sites whose admission predicate is a call (mpsc-bounded credit, mpmc-bounded fullness under the lock, oneshot CAS, rendezvous pairing). "
             "SPSC/SPMC index arithmetic and len()<=capacity as numbers are not decided.", "§4 C03"),
-    "C04": ("interprocedural closed-gate dominance over every send/receive form and future, counter inc/dec pairing for Clone handles, data-flow of the closed flag through conversions, flag-won edge dominance in Drop/close",
+    "C04": ("interprocedural closed-gate dominance over every send/receive form and future, counter inc/dec pairing for Clone handles, data-flow of the closed flag through conversions, flag-won edge dominance in Drop/close, liveness-read -> re-drain -> Disconnected path rule",
             "Every operation of all 42 handle types (and the poll of every future holding a handle) consults that handle's closed flag; Clone handles are counted and the last-handle test "
-            "is branched on; conversions carry the closed state; Drop/close act only when they won the flag. Drain-before-Disconnected ordering is not decided.", "§4 C04"),
+            "is branched on; conversions carry the closed state; Drop/close act only when they won the flag; wherever a receive form decides Disconnected itself, every path from the last sender-liveness read passes another dequeue attempt (straggler re-drain).", "§4 C04"),
     "C05": ("MIR CFG path rule (register -> barrier -> re-check -> park; lock-based variant via must-held guard analysis), SeqCst-fence-dominates-gate rule, publish=>notify must-follow rows",
             "At every park site of fibre (an uncovered park site fails the check) the blocking protocol excludes the classic lost-wakeup window on every path; every notifier gate read follows a "
             "SeqCst fence; every publishing event is followed by its notifier. Static rule verdicts, not a liveness proof.", "§4 C05"),
